@@ -20,8 +20,16 @@ Theorem C04_roundtrip : forall name ty s v i, In (name, ty, s) msg_table ->
   enc_s s v = Some i -> dec_s s i = Some v.
 Proof. intros name ty s v i _. apply C04_dec_enc_s. Qed.
 
-Definition table_ok (e : string * N * schema) : bool :=
-  match snd e with SStruct (SUInt 8 :: _) => true | SOpaque => true | _ => false end.
+Fixpoint typed (s : schema) : bool :=
+  match s with
+  | SStruct (SUInt 8 :: _) => true
+  | SOpaque => true
+  | SPost PReplyNextTx SRaw => true      (* the hand decoder checks the type itself: C04_reply_next_tx *)
+  | SPost _ s' => typed s'
+  | SByLen _ a b | SAlt a b => typed a && typed b
+  | _ => false
+  end.
+Definition table_ok (e : string * N * schema) : bool := typed (snd e).
 Theorem C04_table_shape : forall e, In e msg_table -> table_ok e = true.
 Proof. apply forallb_forall. vm_compute. reflexivity. Qed.
 
@@ -182,3 +190,166 @@ Example C04_arity_ex :
   dec_s sch_keepalive_MsgKeepAlive (Arr (Some Fimm) [UInt Fimm 0]) = None /\
   dec_s sch_keepalive_MsgKeepAlive (Arr None [UInt F1 0; UInt F2 5]) = Some (VStruct [VUInt 0; VUInt 5]).
 Proof. conj_vc. Qed.
+
+(* ---- third round: the hand-written codecs ---- *)
+From V Require Lib.CborProofs C22.Proofs.
+
+(* SPost: whatever a hand-written decoder accepts was first accepted by the
+   underlying schema, and the post-processing accepted that value *)
+Theorem C04_post : forall p s i v, dec_s (SPost p s) i = Some v ->
+  exists v0, dec_s s i = Some v0 /\ post_dec p v0 = Some v.
+Proof.
+  intros p s i v. unfold dec_s. cbn [dec_g]. destruct (dec_g dec_point s i) as [v0|]; [|discriminate]. eauto.
+Qed.
+
+(* SByLen (decoder switching on the element count): only an array, decoded by
+   the alternative its length selects *)
+Theorem C04_bylen : forall n a b i v, dec_s (SByLen n a b) i = Some v ->
+  exists f xs, strip i = Arr f xs /\
+    ((len xs = n /\ dec_s a i = Some v) \/ (len xs <> n /\ dec_s b i = Some v)).
+Proof.
+  intros n a b i v. unfold dec_s. cbn [dec_g]. destruct (strip i) as [| | | | | |f xs| | | |]; try discriminate.
+  intros H. exists f, xs. split; [reflexivity|]. destruct (N.eqb_spec (len xs) n); [left|right]; auto.
+Qed.
+
+(* leios-fetch MsgBlockTxs: an array of exactly 2 or exactly 4 elements *)
+Theorem C04_block_txs_arity : forall i v, dec_s sch_leiosfetch_MsgBlockTxs i = Some v ->
+  exists f xs, strip i = Arr f xs /\ (length xs = 2%nat \/ length xs = 4%nat).
+Proof.
+  intros i v H. apply C04_bylen in H. destruct H as (f & xs & S & [[L D]|[L D]]); exists f, xs; (split; [exact S|]).
+  - left. unfold len in L. lia.
+  - right. apply C04_arity in D. destruct D as [D|(f' & xs' & vs & S' & L' & _)].
+    + rewrite S in D. discriminate.
+    + rewrite S in S'. injection S' as _ <-. exact L'.
+Qed.
+
+(* Validate(): the byte fields have the required lengths (Leios vote signature
+   48 bytes; prototype vote hash 32 bytes) *)
+Theorem C04_lens : forall cs s i v, dec_s (SPost (PLens cs) s) i = Some v ->
+  dec_s s i = Some v /\ lens_ok cs v = true.
+Proof.
+  intros cs s i v H. apply C04_post in H. destruct H as (v0 & D & P). cbn [post_dec] in P.
+  destruct (lens_ok cs v0) eqn:L; [|discriminate]. injection P as <-. auto.
+Qed.
+
+Ltac dm H := repeat match type of H with
+  | context [match ?x with _ => _ end] => destruct x eqn:?; try discriminate H
+  end.
+
+(* local-tx-monitor ReplyNextTx (fixed code, 3f33b77): [type] or
+   [type, [era, 24(content)]] with plain unsigned type and era below 256 -
+   no other element count, no coercion outside the tag-24 content *)
+Theorem C04_reply_next_tx : forall i v, dec_s sch_localtxmonitor_MsgReplyNextTx i = Some v ->
+  (exists f g t, strip i = Arr f [UInt g t] /\ t < 256 /\ v = VStruct [VUInt t; VUInt 0; VList []]) \/
+  (exists f g t f' g' e h c, strip i = Arr f [UInt g t; Arr f' [UInt g' e; Tag h 24 c]] /\ t < 256 /\ e < 256).
+Proof.
+  intros i v H. apply C04_post in H. destruct H as (v0 & D & P). unfold dec_s in D. cbn [dec_g] in D. injection D as <-.
+  cbn [post_dec] in P. dm P.
+  1: { left. injection P as <-. do 3 eexists. repeat split. lia. }
+  all: right; subst; repeat match goal with H : (_ && _) = true |- _ => apply andb_true_iff in H; destruct H end;
+    match goal with H : (?t =? 24) = true |- _ => apply N.eqb_eq in H; subst t end;
+    do 8 eexists; repeat split; lia.
+Qed.
+
+(* DMQ reject reason (FIXED code): [type] or [type, message], plain unsigned type <= 3 *)
+Theorem C04_reject_reason : forall i v, dec_s (SPost PRejectReason SRaw) i = Some v ->
+  exists f g t rest, strip i = Arr f (UInt g t :: rest) /\ t <= 3 /\ (length rest <= 1)%nat.
+Proof.
+  intros i v H. apply C04_post in H. destruct H as (v0 & D & P). unfold dec_s in D. cbn [dec_g] in D. injection D as <-.
+  cbn [post_dec] in P.
+  destruct (strip i) as [| | | | | |f xs| | | |]; try discriminate.
+  destruct xs as [|x rest]; [discriminate|]. destruct x as [g t| | | | | | | | | |]; try discriminate.
+  destruct rest as [|m [|m2 r]]; try discriminate; destruct (N.leb_spec t 3); try discriminate;
+    exists f, g, t; eexists; (split; [reflexivity|]); split; cbn [length]; lia.
+Qed.
+
+(* the pinned RejectReasonData decoder ignored everything after the message *)
+Example C04_reject_reason_ex :
+  dec_s sch_localmessagesubmission_MsgRejectMessage
+    (Arr (Some Fimm) [UInt Fimm 2; Arr (Some Fimm) [UInt Fimm 0; TStr Fimm [120]; UInt Fimm 5]]) = None /\
+  dec_s sch_localmessagesubmission_MsgRejectMessage
+    (Arr (Some Fimm) [UInt Fimm 2; Arr (Some Fimm) [UInt Fimm 0; TStr Fimm [120]]]) = Some (VStruct [VUInt 2; VStruct [VUInt 0; VText [120]]]).
+Proof. conj_vc. Qed.
+
+(* ---- chain-sync RollForward: C04's codec IS C22's wrapper ---- *)
+Lemma all_bytes_b_of bs : all_bytes bs -> all_bytes_b bs = true.
+Proof.
+  unfold all_bytes, all_bytes_b. intros H. apply forallb_forall. intros x Hx. rewrite Forall_forall in H.
+  specialize (H x Hx). unfold is_byte in H. apply N.ltb_lt. exact H.
+Qed.
+
+Definition sch_tip : schema := SStruct [SPoint; SUInt 64].
+
+(* node-to-client: the item C22.Model.wrap_ntc builds is what C04's schema
+   encodes for the fields (type 2, tag 24 around [t, block], tip, t, block) ... *)
+Theorem C04_ntc_enc_is_c22 : forall t b tip tv m,
+  wf b -> t < 2 ^ 64 -> enc_s sch_tip tv = Some tip ->
+  C22.Model.wrap_ntc t (enc b) tip = Some m ->
+  enc_s sch_chainsync_ntc_MsgRollForwardNtC
+    (VStruct [VUInt 2; VTagged 24 (VBytes (C22.Model.wrapped_block_bytes t (enc b))); tv; VUInt t; VBytes (enc b)]) = Some m.
+Proof.
+  intros t b tip tv m Wb Ht Et W. unfold C22.Model.wrap_ntc in W.
+  rewrite (C22.Proofs.raw_enc b Wb), (C22.Proofs.one_item_enc b Wb) in W. injection W as <-.
+  unfold sch_chainsync_ntc_MsgRollForwardNtC. fold sch_tip. cbn [enc_s post_enc].
+  change (24 =? 24) with true. destruct (N.ltb_spec t (2 ^ 64)); [|lia].
+  rewrite (all_bytes_b_of _ (Lib.CborProofs.enc_bytes b Wb)), (C22.Proofs.one_item_enc b Wb).
+  rewrite (proj2 (bytes_eqb_eq _ _) eq_refl). cbn [andb enc_s].
+  rewrite Et. reflexivity.
+Qed.
+
+(* ... hence (C04_dec_enc_s) decoding C22's message gives these fields back:
+   C04_roundtrip for the NtC RollForward, stated on C22's encoder *)
+Theorem C04_rollforward_ntc_roundtrip : forall t b tip tv m,
+  wf b -> t < 2 ^ 64 -> enc_s sch_tip tv = Some tip ->
+  C22.Model.wrap_ntc t (enc b) tip = Some m ->
+  dec_s sch_chainsync_ntc_MsgRollForwardNtC m =
+    Some (VStruct [VUInt 2; VTagged 24 (VBytes (C22.Model.wrapped_block_bytes t (enc b))); tv; VUInt t; VBytes (enc b)]).
+Proof. intros. apply C04_dec_enc_s. eapply C04_ntc_enc_is_c22; eauto. Qed.
+Print Assumptions C04_rollforward_ntc_roundtrip.
+
+(* node-to-node: WrappedHeader.MarshalCBOR as C22 has it *)
+Definition sch_wheader : schema := SPost PWHeader (SStruct [SUInt 64; SRaw]).
+Theorem C04_wheader_enc_is_c22 : forall era ty sz h, era < 2 ^ 64 -> ty < 2 ^ 64 -> sz < 2 ^ 64 ->
+  enc_s sch_wheader (VStruct [VUInt era; VUInt (if era =? 0 then ty else 0); VUInt (if era =? 0 then sz else 0); VBytes h])
+    = Some (C22.Model.wrapped_header era ty sz h).
+Proof.
+  intros era ty sz h He Hty Hsz. unfold sch_wheader, C22.Model.wrapped_header, C22.Model.header_era_byron. cbn [enc_s post_enc].
+  destruct (N.eqb_spec era 0) as [->|Hn].
+  - destruct (N.ltb_spec ty (2 ^ 64)); [|lia]. destruct (N.ltb_spec sz (2 ^ 64)); [|lia]. cbn [andb enc_s]. reflexivity.
+  - cbn [N.eqb andb enc_s]. destruct (N.ltb_spec era (2 ^ 64)); [|lia]. reflexivity.
+Qed.
+
+Theorem C04_rollforward_ntn_roundtrip : forall era bt block tip tv m,
+  era < 2 ^ 64 -> bt < 2 ^ 64 -> N.of_nat (length block) + 2 < 2 ^ 64 -> enc_s sch_tip tv = Some tip ->
+  C22.Model.wrap_ntn era bt block tip = Some m ->
+  exists hdr, C22.Model.header_of block = Some hdr /\
+    dec_s sch_chainsync_ntn_MsgRollForwardNtN m =
+      Some (VStruct [VUInt 2; VStruct [VUInt era; VUInt (if era =? 0 then bt else 0);
+                                       VUInt (if era =? 0 then C22.Model.byron_size_of era block else 0); VBytes hdr]; tv]).
+Proof.
+  intros era bt block tip tv m He Hbt Hlen Et W. unfold C22.Model.wrap_ntn in W.
+  destruct (C22.Model.header_of block) as [hdr|]; [|discriminate]. injection W as <-.
+  exists hdr. split; [reflexivity|]. apply C04_dec_enc_s.
+  assert (Hsz : C22.Model.byron_size_of era block < 2 ^ 64).
+  { unfold C22.Model.byron_size_of. destruct (era =? C22.Model.header_era_byron); lia. }
+  pose proof (C04_wheader_enc_is_c22 era bt (C22.Model.byron_size_of era block) hdr He Hbt Hsz) as EH.
+  unfold sch_chainsync_ntn_MsgRollForwardNtN. fold sch_wheader sch_tip. cbn [enc_s]. cbn [enc_s] in EH.
+  rewrite EH, Et. reflexivity.
+Qed.
+Print Assumptions C04_rollforward_ntn_roundtrip.
+
+(* non-vacuity *)
+Example C04_hand_ex :
+  dec_s sch_localtxmonitor_MsgReplyNextTx (Arr (Some Fimm) []) = None /\
+  dec_s sch_localtxmonitor_MsgReplyNextTx (Arr (Some Fimm) [UInt Fimm 6; Arr (Some Fimm) [UInt Fimm 6; Tag F1 24 (BStr Fimm [128])]; UInt Fimm 0]) = None /\
+  dec_s sch_localtxmonitor_MsgReplyNextTx (Arr None [UInt F2 6; Arr (Some F1) [UInt F8 6; Tag F2 24 (BStr Fimm [128])]])
+    = Some (VStruct [VUInt 6; VUInt 6; VList [VBytes [128]]]) /\
+  dec_s sch_leiosfetch_MsgBlockTxs (Arr (Some Fimm) [UInt Fimm 3; Arr (Some Fimm) []; Arr (Some Fimm) []]) = None /\
+  dec_s sch_leiosfetch_MsgBlockTxs (Arr (Some Fimm) [UInt Fimm 3; Arr (Some Fimm) [UInt Fimm 1]])
+    = Some (VStruct [VUInt 3; VList [VRaw (UInt Fimm 1)]]) /\
+  (exists i, enc_s sch_leiosvotes_MsgVote (VStruct [VUInt 1; VStruct [VUInt 5; VBytes (repeat 7 32); VUInt 9; VBytes (repeat 1 48)]]) = Some i) /\
+  enc_s sch_leiosvotes_MsgVote (VStruct [VUInt 1; VStruct [VUInt 5; VBytes (repeat 7 32); VUInt 9; VBytes (repeat 1 47)]]) = None.
+Proof.
+  repeat (match goal with |- _ /\ _ => split end); try vc.
+  eexists. vm_compute. reflexivity.
+Qed.
